@@ -4,9 +4,12 @@ the real assembler and executed symbolically (real operation bodies from the pro
 ADVERSARIAL host: every value popped from the advice stack is a fresh symbolic field element.  Per
 completed path z3 decides that the result is the mathematically correct one (and the rest of the
 stack is untouched); paths that end in an error are the "does not complete" alternative the property
-allows.  Honest host: for every hint value n (quick: a sample of n) the instruction is executed again
-with the hint fixed to n and the operand restricted to the class whose correct result is n; every
-path must complete with n on top (a feasible error path is replayed natively with the real host).
+allows.  Because the fully symbolic exploration does not always finish (ilog2), the same two facts are
+also decided hint by hint: for every admissible hint value n (quick: a sample of n) the instruction is
+executed with the hint fixed to n and the operand symbolic; a completed path must imply that n is the
+correct result (soundness against that answer of the host) and an error path must be impossible for
+operands whose correct result is n (an honest host completes); one more run with a symbolic hint above
+the admissible range must not complete at all.
 The 64-bit division routines of the standard library are decided under C16 with the same adversarial
 advice; ext2inv/ext2div and the Merkle instructions are not encoded (extension-field inverse, RPO)."""
 import os
@@ -18,10 +21,11 @@ import z3
 sys.path.insert(0, os.path.dirname(os.path.abspath(__file__)))
 import c05_instr  # noqa: E402
 from c05_instr import airq, ispec, masmsym, opsum  # noqa: E402
-from common import Verdict, repo_fingerprint, tier, write_evidence  # noqa: E402
+from common import Verdict, repo_fingerprint, save_replay, tier, write_evidence  # noqa: E402
 
 PROP = "C09"
-QUICK = ["u32clz"]
+NO_SYMBOLIC_HINT = {"ilog2"}
+QUICK = ["u32clz", "ilog2"]
 THOROUGH = ["u32clz", "u32ctz", "u32clo", "u32cto", "ilog2"]
 
 
@@ -58,48 +62,93 @@ def operand_class(name, v0, n):
 
 
 def _honest_worker(args):
-    """honest host: the hint is the result n; for every operand of that class the instruction completes with n on top"""
+    """hint fixed to the concrete value n (or, for n = None, to an arbitrary value above the admissible
+    range), operand symbolic within the documented precondition only:
+      soundness    - a completed path implies that n is the correct result for the operand;
+      completeness - an error path is only possible for operands whose correct result is not n
+                     (so with the honest hint the instruction completes)."""
     name, root, n = args
     V = Verdict(PROP)
     interp, meta = c05_instr._W["interp"], c05_instr._W["meta"]
-    tag = f"honest:{name}[hint={n}]"
+    tag = f"hint:{name}[hint={'>max' if n is None else n}]"
+    hi = 63 if name == "ilog2" else 32
 
     def pre(it, init):
-        it.advice_script = [n]
+        if n is not None:
+            it.advice_script = [n]
         v0 = it.ctx.value(init[0].l)
-        it.assume(operand_class(name, v0, n))
+        if name != "ilog2":
+            it.assume(v0 < 2**32)
+        it.info["v0"] = v0
 
     try:
         paths = masmsym.run_mast(interp, meta, root, overflow_items=2, pre=pre)
     except Exception as e:
-        V.add(tag, "inconclusive", detail=f"{type(e).__name__}: {e}"[:300])
+        # the run with a symbolic out-of-range hint sometimes exceeds the branch-feasibility caps: reported as
+        # not covered (it is an extra on top of the per-hint runs), never as a verdict
+        V.add(tag, "not-covered" if n is None else "inconclusive", detail=f"{type(e).__name__}: {e}"[:300])
         return V.obligations, V.violations
+
+    def solver_for(res, extra):
+        s = z3.Solver()
+        s.set("timeout", 120000)
+        s.add(res.ctx.side)
+        s.add(res.pc)
+        s.add(extra)
+        return s
+
     for pi, res in enumerate(paths):
         if res.outcome != "ok":
             V.add(f"{tag}#p{pi}", "inconclusive", detail=str(res.value)[:200])
             continue
         kind = res.value[0]
+        v0 = res.info["v0"]
+        ctx = res.ctx
+        if n is None:
+            # hint outside the admissible range: must not complete
+            hints = [e[2] for e in res.events if e[0] == "host" and not isinstance(e[2], list)]
+            if not hints:
+                V.add(f"{tag}#p{pi}", "inconclusive", detail="no advice pop on this path")
+                continue
+            big = ctx.value(hints[0].l) > hi
+            if kind == "ok":
+                s = solver_for(res, [big])
+                r = s.check()
+                if r == z3.unsat:
+                    V.add(f"{tag}#p{pi}: no completed path with a hint above {hi}", "discharged")
+                elif r == z3.sat:
+                    m = s.model()
+                    env = {k: m.eval(v, model_completion=True).as_long() for k, v in ctx.atoms.items()}
+                    confirm_dishonest(meta, name, res, env, f"{tag}#p{pi}: completes with a hint above {hi}", V)
+                else:
+                    V.add(f"{tag}#p{pi}: no completed path with a hint above {hi}", "inconclusive", detail="solver unknown")
+            continue
+        cls = operand_class(name, v0, n)
         if kind == "ok":
             top = res.value[1][0]
-            s = z3.Solver()
-            s.set("timeout", 60000)
-            s.add(res.ctx.side)
-            s.add(res.pc)
-            s.add(res.ctx.value(top.l) != n)
+            s = solver_for(res, [z3.Not(z3.And(cls, ctx.value(top.l) == n))])
             r = s.check()
+            oname = f"{tag}#p{pi}: a completed path implies that {n} is the correct result (and is what is returned)"
             if r == z3.unsat:
-                V.add(f"{tag}#p{pi}: completes with the result {n}", "discharged")
-            else:
-                V.add(f"{tag}#p{pi}: completes with the result {n}", "inconclusive", detail=f"solver {r}")
-        else:
-            # a feasible error path under the honest hint: replay natively with the real default host
-            s = z3.Solver()
-            s.add(res.ctx.side)
-            s.add(res.pc)
-            if s.check() == z3.sat:
+                V.add(oname, "discharged")
+            elif r == z3.sat:
                 m = s.model()
-                env = {k: m.eval(v, model_completion=True).as_long() for k, v in res.ctx.atoms.items()}
-                c05_instr.confirm_honest(meta, name, env, f"{tag}#p{pi}: no error with the honest hint", V, dict(native_validated=0))
+                env = {k: m.eval(v, model_completion=True).as_long() for k, v in ctx.atoms.items()}
+                confirm_dishonest(meta, name, res, env, oname, V, hint=n)
+            else:
+                V.add(oname, "inconclusive", detail="solver unknown")
+        else:
+            s = solver_for(res, [cls])
+            r = s.check()
+            oname = f"{tag}#p{pi}: the error path is not taken for operands whose result is {n} (honest host completes)"
+            if r == z3.unsat:
+                V.add(oname, "discharged")
+            elif r == z3.sat:
+                m = s.model()
+                env = {k: m.eval(v, model_completion=True).as_long() for k, v in ctx.atoms.items()}
+                c05_instr.confirm_honest(meta, name, env, oname, V, dict(native_validated=0))
+            else:
+                V.add(oname, "inconclusive", detail="solver unknown")
     if not paths:
         V.add(tag, "inconclusive", detail="no feasible path")
     for o in V.obligations:
@@ -107,12 +156,36 @@ def _honest_worker(args):
     return V.obligations, V.violations
 
 
+def confirm_dishonest(meta, name, res, env, oname, V, hint=None):
+    """native run with the scripted host returning the model's hint; compared with the integer function"""
+    import re as _re
+    c = meta.cols
+    K = c05_instr.K
+    stack = [env.get(f"c{c['STACK']+i}", 0) for i in range(16)] + [env.get(f"ov{K-1-j}", 0) for j in range(K)]
+    if hint is None:
+        hs = [e[2] for e in res.events if e[0] == "host" and not isinstance(e[2], list)]
+        l = hs[0].l
+        hint = l.const if l.is_const() else env.get(next(iter(l.terms)), 0)
+    src = f"begin {name} end"
+    nat = masmsym.native([{"kind": "exec_masm", "source": src, "stack": [str(x) for x in stack], "max_cycles": 100000, "hints": [str(hint)]}], "c09d")[0]
+    x = stack[0]
+    T32 = 2**32
+    true = {"u32clz": lambda: 32 - x.bit_length(), "u32clo": lambda: 32 - (T32 - 1 - x).bit_length(),
+            "u32ctz": lambda: 32 if x == 0 else (x & -x).bit_length() - 1, "u32cto": lambda: 32 if x == T32 - 1 else ((~x & (x + 1)).bit_length() - 1),
+            "ilog2": lambda: None if x == 0 else x.bit_length() - 1}[name]()
+    path = save_replay(PROP, "hint_" + _re.sub(r"[^A-Za-z0-9_]", "_", f"{name}_{hint}"), dict(kind="exec_masm", source=src, stack=[str(v) for v in stack], hints=[str(hint)], native=nat, correct=true))
+    if nat["status"] == "ok" and (true is None or int(nat["stack"][0]) != true):
+        V.violation(oname, path, f"`{src}` on operand {x} with the host answering {hint}: completes with {nat['stack'][0]}, the correct result is {true if true is not None else 'a failure'}", key=f"hint:{name}")
+    else:
+        V.add(oname, "inconclusive", detail=f"solver counterexample (operand {x}, hint {hint}) did not reproduce natively: {str(nat)[:120]}")
+
+
 def hint_values(name, quick):
     hi = 63 if name == "ilog2" else 32
     lo = 0
     if quick:
-        return sorted({lo, 1, hi // 2, hi - 1, hi})
-    return list(range(lo, hi + 1))
+        return sorted({lo, 1, hi // 2, hi - 1, hi}) + [None]
+    return list(range(lo, hi + 1)) + [None]
 
 
 def main():
@@ -136,10 +209,16 @@ def main():
     c05_instr._W.update(meta=meta, interp=interp)
     import multiprocessing as mp_
     n = int(os.environ.get("VERIF_JOBS", "0")) or max(1, min(12, (os.cpu_count() or 2) - 2))
-    with mp_.get_context("fork").Pool(min(n, len(todo) or 1)) as pool:
-        results = pool.map(_worker, todo, chunksize=1)
+    # fully symbolic hint: explored for the u32 bit-counting instructions; for ilog2 the exploration does not
+    # finish within the caps (measured: > 30 minutes), its hints are covered one by one below
+    sym = [t for t in todo if t[0] not in NO_SYMBOLIC_HINT and (tier() != "quick" or only)]
+    results = []
+    if sym:
+        with mp_.get_context("fork").Pool(min(n, len(sym))) as pool:
+            results = pool.map(_worker, sym, chunksize=1)
     with mp_.get_context("fork").Pool(n) as pool:
-        hres = pool.map(_honest_worker, [(nm, root, h) for nm, root in todo for h in hint_values(nm, tier() == "quick")], chunksize=1)
+        hres = pool.map(_honest_worker, [(nm, root, h) for nm, root in todo for h in hint_values(nm, tier() == "quick")
+                                         if not (h is None and nm in NO_SYMBOLIC_HINT)], chunksize=1)
     for obs, vio in hres:
         V.obligations += obs
         V.violations += vio
@@ -154,8 +233,8 @@ def main():
             cov[k_] = cov.get(k_, 0) + v_ if not isinstance(v_, list) else cov.get(k_, []) + v_
     names_ = " ".join(o["name"] for o in V.obligations)
     for nme, _ in todo:
-        ok = f"instr:{nme}#" in names_ and "item 0" in names_
-        dish = f"instr:{nme}" in names_ and "dishonest hint" in names_
+        ok = f"hint:{nme}[" in names_ and "a completed path implies" in names_
+        dish = f"hint:{nme}[" in names_ and "the error path is not taken" in names_
         V.add(f"{nme}: vacuity guard - completed paths and rejected-hint paths both exist", "discharged" if ok and dish else "inconclusive")
     c = V.counts()
     coverage = dict(
@@ -166,7 +245,7 @@ def main():
         functions_encoded=["assembler expansion of the instruction (real assembler, replay binary)", "Process::execute_op and the op_* bodies it reaches (MIR)"],
         modelled_natively=["advice provider: every popped value is a fresh symbolic field element (adversarial host)", "stack / system components (abstract models validated in C05)"],
         bounds="one instruction on a symbolic stack of depth 18; operand below 2^32 (u32 instructions) / any non-zero field element (ilog2)",
-        not_covered="ext2inv/ext2div, mtree_get/mtree_set/mtree_verify (RPO), adv_push/adv_loadw/adv_pipe ordering, honest-host injectors (decorators are not part of the executed MAST model); "
+        not_covered="ilog2 with a hint above 63 (the symbolic-hint exploration does not finish; every hint 0..63 is covered one by one), ext2inv/ext2div, mtree_get/mtree_set/mtree_verify (RPO), adv_push/adv_loadw/adv_pipe ordering, honest-host injectors (decorators are not part of the executed MAST model); "
                     "u64 division with adversarial advice is decided under C16",
         sources_fingerprint=repo_fingerprint(["assembly/src/assembler/instruction/u32_ops.rs", "assembly/src/assembler/instruction/field_ops.rs", "processor/src/operations"]),
         evaluations=len(V.obligations), distinct_nontrivial=c.get("discharged", 0), rule="one obligation per (instruction, path, stack item / failure condition)",
